@@ -143,7 +143,13 @@ func main() {
 		var must []string
 		lateFail := false
 		dynFail := false
-		switch r.Pick(16) {
+		switch r.Pick(19) {
+		case 16, 17:
+			// identical element-less arrays with keep_empty_or_null on one node
+			must = []string{"empty-arrays", "plain"}
+		case 18:
+			// args named like built-ins, then scripts enumerating the global object
+			must = []string{"js-enumerate", "js-throw"}
 		case 14, 15:
 			// union xpaths on array elements (element order must not depend on the node pool)
 			must = []string{"union", "plain"}
@@ -235,7 +241,8 @@ func main() {
 
 		nontrivial := feats["identical-decls"] || feats["identical-decls-anchoring"] || feats["template"] ||
 			feats["javascript"] || feats["javascript_with_context"] || feats["template-dynamic-anchors"] ||
-			feats["js-whitespace"] || feats["js-throw"] || feats["js-global-probe"] || feats["implicit-node"]
+			feats["js-whitespace"] || feats["js-throw"] || feats["js-global-probe"] || feats["implicit-node"] ||
+			feats["empty-arrays"] || feats["js-enumerate"]
 		canon, _ := json.Marshal(cs)
 		sum.Count(string(canon), nontrivial)
 		sum.Hist("format:" + f.Name)
